@@ -57,6 +57,14 @@ MUTANTS = {
         ('guard-keys-class', 'dashlive/server/requesthandler/keypairs.py', "    decorators = [login_required(permission=models.Group.MEDIA)]", "    decorators = []"),
         ('guard-keys-admin-only', 'dashlive/server/requesthandler/keypairs.py', "    decorators = [login_required(permission=models.Group.MEDIA)]", "    decorators = [login_required()]"),
     ],
+    'C05': [
+        ('xs-amp-last', 'dashlive/server/template_tags.py', "    return (value.replace('&', '&amp;').replace('<', '&lt;')\n            .replace('>', '&gt;').replace('\"', '&quot;'))", "    return (value.replace('<', '&lt;')\n            .replace('>', '&gt;').replace('\"', '&quot;').replace('&', '&amp;'))"),
+        ('xs-no-quot', 'dashlive/server/template_tags.py', ".replace('>', '&gt;').replace('\"', '&quot;'))", ".replace('>', '&gt;'))"),
+        ('xs-only-amp', 'dashlive/server/template_tags.py', "    return (value.replace('&', '&amp;').replace('<', '&lt;')\n            .replace('>', '&gt;').replace('\"', '&quot;'))", "    return value.replace('&', '&amp;')"),
+        ('tpl-title-raw', 'templates/manifests/manifest_b.mpd', "<Title>{{title|xmlSafe}}</Title>", "<Title>{{title}}</Title>"),
+        ('tpl-laurl-raw', 'templates/drm/clearkey.xml', "{{DRM.clearkey.laurl|xmlSafe}}", "{{DRM.clearkey.laurl}}"),
+        ('tpl-new-field', 'templates/manifests/manifest_b.mpd', "<ProgramInformation>", "<ProgramInformation moreInformationURL=\"{{mpd.infoURL}}\">"),
+    ],
     'C20': [
         ('seek-no-upper-clamp', 'dashlive/utils/buffered_reader.py', '            self.pos = min(self.pos, self.size)\n', '            pass\n'),
         ('seek-end-sign', 'dashlive/utils/buffered_reader.py', '            self.pos = self.size + offset\n', '            self.pos = self.size - offset\n'),
@@ -277,6 +285,7 @@ def main():
         tmp = tempfile.mkdtemp(prefix='pyvc-mut-')
         try:
             shutil.copytree('/repo/dashlive', os.path.join(tmp, 'dashlive'))
+            shutil.copytree('/repo/templates', os.path.join(tmp, 'templates'))
             p = os.path.join(tmp, rel)
             s = open(p).read()
             if old not in s:
